@@ -364,7 +364,12 @@ func runDirfsHLCase(c fsCase) []Step {
 		switch o.K {
 		case "hl":
 			r = hlDiskView(w.dir, strings.Split(o.D, ","))
-			shared = strings.Contains(r, ":2:") || strings.Contains(r, ":3:") || strings.Contains(r, ":4:")
+			shared = false
+			for _, part := range strings.Split(strings.TrimPrefix(r, "g"), "+") {
+				if f := strings.Split(part, ":"); len(f) == 4 && f[1] != "1" && f[1] != "0" {
+					shared = true
+				}
+			}
 		case "stat":
 			if fi, err := f.Stat(o.P); err != nil {
 				r = "E"
